@@ -147,7 +147,10 @@ OnBody(s, e, ln) ==
       req2 == IF e.run = "twin"
               THEN [s.req EXCEPT !.mclass = IF s.req.mclass = "get" THEN "head" ELSE "get"] ELSE s.req
       bf == IF judged /\ s.isGet THEN BodyFailures(req2, s.h, s.bs, e.tokens, drained) ELSE {}
-      hang == IF e.stopped = "hang" THEN Enforce \cap {"C13"} ELSE {}
+      hang == IF e.stopped = "hang" THEN Enforce \cap {"C13"}
+              ELSE IF e.stopped = "max_polls" /\ judged
+              THEN Enforce \cap {"C01", "C02", "C06", "C07"}   \* the body does not terminate
+              ELSE {}
       summary == [calls |-> e.calls, spolls |-> e.spolls, total |-> e.total,
                   hint0 |-> IF Len(s.bs.probes) > 0
                             THEN [lo |-> s.bs.probes[1][1], up |-> s.bs.probes[1][2]]
@@ -163,7 +166,7 @@ OnBody(s, e, ln) ==
                   ELSE {}
   IN [s EXCEPT !.mainB = IF isMain THEN summary ELSE s.mainB,
                !.hasB = FALSE,
-               !.viol = s.viol \cup Bad(s, ln, bf, "body") \cup Bad(s, ln, hang, "hang")
+               !.viol = s.viol \cup Bad(s, ln, bf, "body") \cup Bad(s, ln, hang, "body hangs or does not terminate within the poll budget")
                           \cup Bad(s, ln, pairFail, "HEAD/GET pair")]
 
 \* Body::from / Body::empty conversions (C12): a body with no head; the announced length is the
